@@ -15,7 +15,6 @@ NA = {
  "C09": "check_type_relation threads &mut HashSet/&mut Vec through iter().all/any closures and let-chains (outside Verus); its specification needs a value-enumeration oracle (a model); CBMC cannot carry String-keyed type tables.",
  "C10": "Result equality of whole programs across tree-shake/serde/merge/import; the remappers are iterator/closure/HashMap code outside the dialect.",
  "C11": "History-dependent equivalence across Repl, Worker, Environment and Compiler; not expressible as function contracts.",
- "C13": "values_equal is zip().all(closure) code (outside Verus) and did not finish under Kani; canonical tuple shapes come from HashMap::entry code; path independence is compiler-wide.",
  "C14": "Environment holds Box<dyn EffectBackend<E = E>> (rejected by Verus); ownership is a property of event orderings and the documented leak is a liveness fact.",
  "C17": "Formatter fixpoint over all parseable texts (1.8 kLoC pretty-printer); no function-level decomposition within reach.",
  "C18": "Parser totality: nom combinators and string slicing are outside Verus; symbolic text is intractable for CBMC.",
@@ -26,13 +25,14 @@ LEVEL = {
  "C12": ("proof", "Every pure builtin within the Verus dialect, and the binary rope they are built on, is proved total (no panic for any argument) and equal to a mathematical reference model stated over the abstract byte view; unbounded in input size and rope shape. Deductive proof is the right level because the defects live at single representation-boundary inputs that sampling does not reach.", "DESIGN.md §4 C12"),
  "C15": ("proof", "Second sentence of the property only (workers never panic): Verus's implicit safety obligations (overflow, bounds, unwrap, division by zero, shift, reachable panic!/debug_assert!) are discharged for every function under contract, for all arguments and all states satisfying the stated well-formedness. Containment/propagation to awaiters is schedule-level and not decided.", "DESIGN.md §4 C15"),
  "C06": ("proof", "Function-level heap accounting: allocator representation invariant, retain/release exact against a ghost occurrence count, choke points and hot handlers balance counts against what they store; no premature free, no aliasing on reuse, content preserved by materialize. The global equation over all roots of all processes and all schedules is not decided.", "DESIGN.md §4 C06"),
+ "C13": ("proof", "The VM's comparator only: Executor::values_equal (what pinned matches, literal matches and repeated binders execute through the Equal instruction) returns exactly the property's structural equality - equal integers, byte-equal binaries whatever their storage (constant table, heap rope of any shape), same canonical tuple shape and pairwise-equal fields, same definition and pairwise-equal captures, same process, same ref, different kinds differ - for all values of any depth; handle_equal pushes the first value exactly when all compared values are structurally equal to it, nil otherwise, and keeps the heap accounting balanced. Not decided: that the compiler gives equal shapes equal canonical ids on every path (table builder, HashMap code), uniqueness of minted refs across workers, and resource handles (the property is silent about them).", "DESIGN.md §4 C13"),
  "C16": ("proof", "VM mechanism of tail calls: executing TailCall never adds a frame, resets the frame's locals to base (+captures), changes the operand stack by exactly 0/-1 and releases what it drops; for all states. Compiler-side residue is not decided.", "DESIGN.md §4 C16"),
 }
 NOTE = "Trusted: Verus 0.2026.09.13 + bundled Z3 4.16.0; vstd's specs of std; the assumed contracts listed by the mechanical scan in evidence.coverage.trusted_base (BigInt arithmetic = mathematical integers, derived Clone returns an equal value, Display/format is total, usize is 64 bit, dropping has no observable effect); the extractor's closed list of syntactic normalisations (DESIGN.md §2.1), each logged and undone by the erasure self-check on every run."
 TECH = "contract-based deductive verification (Verus/Z3) of functions re-extracted mechanically from /repo on every run"
 
 def main():
-    claimed = [p for p in ("C06", "C12", "C15", "C16") if any(os.path.exists(extract.unit_path(u)) for u in props.PROPS[p]["units"]) and p in (sys.argv[1:] or ["C06","C12","C15","C16"])]
+    claimed = [p for p in ("C06", "C12", "C13", "C15", "C16") if any(os.path.exists(extract.unit_path(u)) for u in props.PROPS[p]["units"]) and p in (sys.argv[1:] or ["C06","C12","C13","C15","C16"])]
     checks = []
     for p in claimed:
         cat, text, ref = LEVEL[p]
@@ -48,7 +48,7 @@ def main():
             "technique": TECH,
         })
     na = [{"property_id": k, "reason": v} for k, v in sorted(NA.items())]
-    for p in ("C06", "C12", "C15", "C16"):
+    for p in ("C06", "C12", "C13", "C15", "C16"):
         if p not in claimed:
             na.append({"property_id": p, "reason": "check not built yet in this revision of /verif (planned: DESIGN.md §4)"})
     man = {
